@@ -31,6 +31,12 @@ type Solver struct {
 	log     io.Writer
 	timeout int
 	inPath  bool
+	pathLog strings.Builder
+	logging bool
+	Fallbacks   int
+	FallbackOK  int
+	fbTimeoutS  int
+	incTimeout  int
 }
 
 func NewSolver(kind string, timeoutMs int) (*Solver, error) {
@@ -79,6 +85,9 @@ func (s *Solver) Close() {
 
 func (s *Solver) send(txt string) {
 	s.buf.WriteString(txt)
+	if s.logging {
+		s.pathLog.WriteString(txt)
+	}
 }
 
 func (s *Solver) flush() {
@@ -122,9 +131,12 @@ func (s *Solver) PathBegin(ts *TermStore) {
 	}
 	s.send("(push 1)\n")
 	s.inPath = true
+	s.pathLog.Reset()
+	s.logging = true
 }
 
 func (s *Solver) PathEnd() {
+	s.logging = false
 	if s.inPath {
 		s.send("(pop 1)\n")
 		s.inPath = false
@@ -219,6 +231,8 @@ func (s *Solver) Check(extra *Term, vars []*Term) (CheckResult, map[string]uint6
 	for _, v := range vars {
 		s.define(v)
 	}
+	s.logging = false
+	defer func() { s.logging = s.inPath }()
 	s.send("(push 1)\n")
 	if extra != nil && !extra.IsTrue() {
 		s.send("(assert " + s.refOf(extra) + ")\n")
@@ -244,6 +258,29 @@ func (s *Solver) Check(extra *Term, vars []*Term) (CheckResult, map[string]uint6
 		}
 	}
 	var model map[string]uint64
+	if res == ResUnknown {
+		// second opinion: one-shot solver run (full tactic pipeline) on the whole path context
+		s.send("(pop 1)\n")
+		s.flush()
+		r2, m2 := s.fallback(extra, vars)
+		d := time.Since(t0)
+		s.Time += d
+		if d > s.MaxQ {
+			s.MaxQ = d
+		}
+		s.Queries++
+		switch r2 {
+		case ResSat:
+			s.Sat++
+		case ResUnsat:
+			s.Unsat++
+		case ResUnknown:
+			s.Unknown++
+		default:
+			s.Errors++
+		}
+		return r2, m2
+	}
 	if res == ResSat && len(vars) > 0 {
 		model = map[string]uint64{}
 		// ask in chunks
@@ -268,6 +305,13 @@ func (s *Solver) Check(extra *Term, vars []*Term) (CheckResult, map[string]uint6
 	s.Time += d
 	if d > s.MaxQ {
 		s.MaxQ = d
+	}
+	if d > 3*time.Second && os.Getenv("GOSYM_SLOW") != "" {
+		es := "<nil>"
+		if extra != nil {
+			es = extra.String()
+		}
+		fmt.Fprintf(os.Stderr, "SLOW QUERY %.1fs res=%s extra=%s\n", d.Seconds(), res, es)
 	}
 	s.Queries++
 	switch res {
@@ -345,4 +389,85 @@ func parseModel(txt string, vars []*Term, s *Solver, out map[string]uint64) {
 		next() // )
 		out[s.refOf(v)] = x
 	}
+}
+
+// fallback decides one query with a fresh one-shot solver process over the full path context.
+func (s *Solver) fallback(extra *Term, vars []*Term) (CheckResult, map[string]uint64) {
+	s.Fallbacks++
+	f, err := os.CreateTemp("", "gosym_fb_*.smt2")
+	if err != nil {
+		return ResUnknown, nil
+	}
+	defer os.Remove(f.Name())
+	var sb strings.Builder
+	sb.WriteString("(set-option :produce-models true)\n")
+	txt := s.pathLog.String()
+	// drop the leading (push 1) of the path scope
+	sb.WriteString(txt)
+	if extra != nil && !extra.IsTrue() {
+		sb.WriteString("(assert " + s.refOf(extra) + ")\n")
+	}
+	sb.WriteString("(check-sat)\n")
+	if len(vars) > 0 {
+		sb.WriteString("(get-value (")
+		for _, v := range vars {
+			sb.WriteString(s.refOf(v) + " ")
+		}
+		sb.WriteString("))\n")
+	}
+	f.WriteString(sb.String())
+	f.Close()
+	to := s.fbTimeoutS
+	if to == 0 {
+		to = 120
+	}
+	res := ResUnknown
+	rest := ""
+	type attempt struct {
+		bin  string
+		args []string
+	}
+	z3bin := "z3"
+	if s.kind == "z3-new" {
+		z3bin = "z3-new"
+	}
+	attempts := []attempt{
+		{z3bin, []string{fmt.Sprintf("-T:%d", (to+3)/4), f.Name()}},
+		{"cvc5", []string{"--lang=smt2", "--produce-models", fmt.Sprintf("--tlimit=%d", to*500), f.Name()}},
+		{z3bin, []string{fmt.Sprintf("-T:%d", to), f.Name()}},
+	}
+	for _, at := range attempts {
+		out, _ := exec.Command(at.bin, at.args...).CombinedOutput()
+		lines := strings.Split(string(out), "\n")
+		for i, l := range lines {
+			l = strings.TrimSpace(l)
+			if l == "sat" {
+				res = ResSat
+				rest = strings.Join(lines[i+1:], " ")
+				break
+			}
+			if l == "unsat" {
+				res = ResUnsat
+				break
+			}
+			if strings.HasPrefix(l, "(error") && !strings.Contains(l, "model is not available") && !strings.Contains(l, "Cannot get value") {
+				fmt.Fprintln(os.Stderr, "FALLBACK SOLVER ERROR:", at.bin, l)
+				return ResError, nil
+			}
+		}
+		if res != ResUnknown {
+			break
+		}
+	}
+	if res != ResUnknown {
+		s.FallbackOK++
+	} else if d := os.Getenv("GOSYM_KEEP_UNKNOWN"); d != "" {
+		os.WriteFile(fmt.Sprintf("%s/unknown_%d_%d.smt2", d, os.Getpid(), s.Fallbacks), []byte(sb.String()), 0644)
+	}
+	var model map[string]uint64
+	if res == ResSat && len(vars) > 0 {
+		model = map[string]uint64{}
+		parseModel(rest, vars, s, model)
+	}
+	return res, model
 }
